@@ -305,3 +305,52 @@ func init() {
 			c.Sample("func w(n) { if n == 0 { return \"x\" } return \"<{{w(n - 1)}}>\" }  w(2) == \"<<x>>\"")
 		}})
 }
+
+// ---------------------------------------------------------------------------
+// repeated expressions: literals assembled from WHOLE interpolation expressions
+// (the piece alphabet above needs three pieces per expression, so two
+// expressions do not fit its bound). The k-th evaluation of tick() yields 6+k:
+// an expression written twice must be evaluated twice, left to right.
+
+func init() {
+	register(&Part{Prop: "C14", Name: "repeated-expressions", Quick: 1, Thor: 2,
+		Desc: "every literal of <= 4 (thorough 5) pieces over {{{tick()}}, {{ tick()}}, {{x}}, {{1+1}}, a, space, -} for x in {v, {{tick()}}, {{x}}}: the result equals the one-pass reference in which the k-th evaluation of tick() yields 6+k, and tick() is evaluated exactly once per occurrence",
+		Rule: "odometer over whole-expression pieces x environments; every case non-trivial",
+		Run: func(c *Ctx) {
+			pieces := []string{"{{tick()}}", "{{ tick()}}", "{{x}}", "{{1+1}}", "a", " ", "-"}
+			n := 4
+			if c.Thorough() {
+				n = 5
+			}
+			for l := 1; l <= n; l++ {
+				idx := make([]int, l)
+				for {
+					if c.Stopped() {
+						return
+					}
+					if c.Mine() {
+						var sb strings.Builder
+						for _, i := range idx {
+							sb.WriteString(pieces[i])
+						}
+						for _, e := range []int{0, 1, 2} {
+							c14Check(c, sb.String(), sb.String(), e, false)
+						}
+					}
+					k := l - 1
+					for k >= 0 {
+						idx[k]++
+						if idx[k] < len(pieces) {
+							break
+						}
+						idx[k] = 0
+						k--
+					}
+					if k < 0 {
+						break
+					}
+				}
+			}
+			c.Sample(`x="v" literal="{{tick()}}-{{tick()}}" == "7-8"`)
+		}})
+}
